@@ -34,6 +34,7 @@ def nontrivial(hist):
 
 def extra(chk: Check, cfg):
     su.assoc_merge_scenarios(chk, chk.rng, chk.n(8, 80))
+    su.reserved_name_scenarios(chk)
 
 
 def run(chk: Check):
